@@ -191,7 +191,9 @@ func modeWire(c *Ctx) {
 			if oasKind(p.Schema) == "array" && p.In != "path" {
 				// several occurrences, some of them empty
 				cn := Canonical(k).Text
-				for name, vals := range map[string][]string{"arr-empty-first": {"", cn}, "arr-empty-mid": {cn, "", cn}, "arr-empty-last": {cn, ""}, "arr-empty-both-ends": {"", cn, ""}, "arr-three": {cn, cn, cn}, "arr-only-empties": {"", ""}} {
+				for name, vals := range map[string][]string{"arr-empty-first": {"", cn}, "arr-empty-mid": {cn, "", cn}, "arr-empty-last": {cn, ""}, "arr-empty-both-ends": {"", cn, ""}, "arr-three": {cn, cn, cn}, "arr-only-empties": {"", ""},
+					// one occurrence holding a comma-separated list (what explode: false would mean)
+					"arr-comma-joined": {cn + "," + cn + "," + cn}, "arr-comma-and-repeat": {cn + "," + cn, cn}} {
 					vals := vals
 					variants[name] = func(s *sup) {
 						switch p.In {
